@@ -625,9 +625,56 @@ static void emit_traj(Rng & rng, int steps) {
 }
 
 // Factored model: one independent row scan per state factor, all from the object's own engine.
+// a random DDN: state factors of sizes 2..4, agents with 2..3 actions, every feature's parent set selected by a NON-PREFIX
+// subset of the agents, one (non-prefix) feature tag per joint action of those agents; rows are genProb shapes; rewards:
+// 1..3 bases on random state/action tags.  Exercises DDNGraph::getId / toIndexPartial / factorSpacePartial where a wrong
+// multiplier or a wrong start offset matters (SysAdmin has uniform sizes).
+static std::vector<size_t> randomTag(Rng & rng, size_t n, size_t maxLen) {
+    std::vector<size_t> t;
+    do { t.clear(); for (size_t i = 0; i < n; ++i) if (rng.coin()) t.push_back(i); } while (t.empty() || t.size() > maxLen);
+    return t;
+}
+static AI::Factored::MDP::CooperativeModel makeRandomCoop(Rng & rng) {
+    namespace F = AI::Factored;
+    const size_t nS = (size_t)rng.range(2, 4), nA = (size_t)rng.range(1, 3);
+    F::State S(nS); F::Action A(nA);
+    for (auto & x : S) x = (size_t)rng.range(2, 4);
+    for (auto & x : A) x = (size_t)rng.range(2, 3);
+    F::DDNGraph graph(S, A);
+    F::DDN::TransitionMatrix T;
+    for (size_t i = 0; i < nS; ++i) {
+        F::DDNGraph::ParentSet ps; ps.agents = randomTag(rng, nA, 2);
+        const size_t na = F::factorSpacePartial(ps.agents, A);
+        size_t rows = 0;
+        for (size_t k = 0; k < na; ++k) { ps.features.push_back(randomTag(rng, nS, 2)); rows += F::factorSpacePartial(ps.features.back(), S); }
+        graph.push(ps);
+        AI::Matrix2D m(rows, S[i]);
+        for (size_t r = 0; r < rows; ++r) { int shape; auto p = genProb(rng, S[i], shape); for (size_t c = 0; c < S[i]; ++c) m(r, c) = p[c]; }
+        T.push_back(std::move(m));
+    }
+    F::FactoredMatrix2D R;
+    const size_t nb = (size_t)rng.range(1, 3);
+    for (size_t b = 0; b < nb; ++b) {
+        F::BasisMatrix bm; bm.tag = randomTag(rng, nS, 2); bm.actionTag = randomTag(rng, nA, 2);
+        bm.values.resize(F::factorSpacePartial(bm.tag, S), F::factorSpacePartial(bm.actionTag, A));
+        for (long r = 0; r < bm.values.rows(); ++r) for (long c = 0; c < bm.values.cols(); ++c) bm.values(r, c) = (double)rng.range(-8, 8) / 4.0;
+        R.bases.push_back(std::move(bm));
+    }
+    return AI::Factored::MDP::CooperativeModel(std::move(graph), std::move(T), std::move(R), 0.9);
+}
+
+static void run_factored(Rng & rng, const AI::Factored::MDP::CooperativeModel & model, unsigned root, int nsamples, int coopLines);
+
 static void emit_factored(Rng & rng, int nsamples) {
     namespace FM = AI::Factored::MDP;
     const unsigned root = (unsigned)rng.next();
+    if (rng.coin(1, 3)) {
+        AI::Seeder::setRootSeed(root);
+        auto model = makeRandomCoop(rng);
+        std::printf("#stat coop_topology_random_ddn 1\n");
+        run_factored(rng, model, root, nsamples, 2);
+        return;
+    }
     const unsigned agents = (unsigned)rng.range(3, 5);
     auto dy = [&]() { return (double)rng.range(1, 6) / 16.0; };
     const double pf = dy(), pfb = dy(), pd = dy(), pdb = dy(), pl = dy(), pg = dy() + 0.5, pff = dy();
@@ -639,6 +686,11 @@ static void emit_factored(Rng & rng, int nsamples) {
     auto model = topo == 6 ? FM::makeSysAdminGrid(2, (unsigned)rng.range(2, 3), pf, pfb, pd, pdb, pl, pg, pff)
                : topo == 7 ? FM::makeSysAdminTorus(3, 3, pf, pfb, pd, pdb, pl, pg, pff)   // a torus needs at least 3 per side (2 makes both neighbours the same machine: rejected by DDNGraph)
                : (topo & 1) ? FM::makeSysAdminBiRing(agents, pf, pfb, pd, pdb, pl, pg, pff) : FM::makeSysAdminUniRing(agents, pf, pfb, pd, pdb, pl, pg, pff);
+    run_factored(rng, model, root, nsamples, topo >= 6 ? 1 : 2);
+}
+
+// one independent row scan per state factor, all from the object's own engine
+static void run_factored(Rng & rng, const AI::Factored::MDP::CooperativeModel & model, unsigned root, int nsamples, int coopLines) {
     SeederMirror sm(root);
     std::mt19937 mir(sm.next());
     std::uniform_real_distribution<double> d01(0.0, 1.0);
@@ -663,7 +715,7 @@ static void emit_factored(Rng & rng, int nsamples) {
         }
         l.nums(us); l << model.getExpectedReward(s, a, s1) << "|"; l.nats(s1); l << rew; l.emit();
         // exact tie of the whole composition: graph (parent sets), every transition matrix, every reward basis
-        if (t < (topo >= 6 ? 1 : 2)) {
+        if (t < coopLines) {
             Line x; x << "C08" << "coop" << (srs ? "srs" : "sr"); x.nats(S); x.nats(A);
             const auto & ps = model.getGraph().getParentSets();
             x << (size_t)ps.size();
@@ -837,6 +889,53 @@ static void emit_seeded_factored(Rng & rng, bool thompson, unsigned root) {
     }
 }
 
+
+// CooperativeMaximumLikelihoodModel::sampleSR / sampleSRs over a random DDN after a few hundred recorded transitions (rows are
+// visit frequencies; unvisited rows keep their initial distribution); the object's engine is mirrored as the code has it
+// (default-constructed until fixes/C08-9, then the object's Seeder seed)
+#ifndef C08_FACTORED_LEARNED_SEEDED
+#define C08_FACTORED_LEARNED_SEEDED false
+#endif
+static void emit_factored_learned(Rng & rng, int nsamples) {
+    namespace FM = AI::Factored::MDP;
+    const unsigned root = (unsigned)rng.next();
+    AI::Seeder::setRootSeed(root);
+    auto truth = makeRandomCoop(rng);                                     // takes the first seed
+    FM::CooperativeExperience exp(truth.getGraph());
+    const auto & S = truth.getS(); const auto & A = truth.getA();
+    auto randSA = [&](AI::Factored::State & s, AI::Factored::Action & a) {
+        s.resize(S.size()); a.resize(A.size());
+        for (size_t i = 0; i < S.size(); ++i) s[i] = rng.below(S[i]);
+        for (size_t i = 0; i < A.size(); ++i) a[i] = rng.below(A[i]);
+    };
+    const int K = (int)rng.range(0, 300);
+    for (int k = 0; k < K; ++k) {
+        AI::Factored::State s; AI::Factored::Action a; randSA(s, a);
+        auto [s1, r] = truth.sampleSR(s, a);
+        AI::Factored::Rewards rr(S.size()); for (long i = 0; i < rr.size(); ++i) rr[i] = (double)rng.range(-4, 4) / 4.0;
+        exp.record(s, a, s1, rr);
+    }
+    FM::CooperativeMaximumLikelihoodModel ml(exp, 0.9, true);
+    SeederMirror sm(root); sm.next();
+    std::mt19937 mir;
+    if (C08_FACTORED_LEARNED_SEEDED) mir.seed(sm.next());
+    std::uniform_real_distribution<double> d01(0.0, 1.0);
+    for (int t = 0; t < nsamples; ++t) {
+        AI::Factored::State s; AI::Factored::Action a; randSA(s, a);
+        std::vector<double> us; for (size_t i = 0; i < S.size(); ++i) us.push_back(d01(mir));
+        AI::Factored::State s1; double rew = 0.0;
+        if (rng.coin()) { auto res = ml.sampleSR(s, a); s1 = std::get<0>(res); rew = std::get<1>(res); }
+        else { auto res = ml.sampleSRs(s, a); s1 = std::get<0>(res); const auto & rews = std::get<1>(res); for (long i = 0; i < rews.size(); ++i) rew += rews[i]; }
+        Line l; l << "C08" << "fsrml" << (size_t)S.size();
+        for (size_t i = 0; i < S.size(); ++i) {
+            std::vector<double> row; rowOf(ml.getTransitionFunction().transitions[i], ml.getGraph().getId(i, s, a), row);
+            l.nums(row);
+        }
+        l.nums(us); l << ml.getExpectedReward(s, a, s1) << "|"; l.nats(s1); l << rew; l.emit();
+    }
+    std::printf("#stat factored_learned 1\n");
+}
+
 // ---------------------------------------------------------------- cases
 static const long kWitness = 26;
 
@@ -983,7 +1082,7 @@ void verif::verif_case(Rng & rng, long idx, const std::string & tier) {
         case 6: emit_models(rng, thorough ? 12 : 8); std::printf("#stat models 1\n"); break;
         case 10: emit_isprobm(rng); emit_isprobm(rng); break;
         case 12: emit_learned(rng, thorough ? 12 : 8); break;
-        case 13: emit_fband(rng, thorough ? 10 : 6); break;
+        case 13: if (rng.coin()) emit_fband(rng, thorough ? 10 : 6); else emit_factored_learned(rng, thorough ? 8 : 4); break;
         case 11: {
             if (rng.coin(1, 8)) { emit_seeded(rng, rng.coin(), (unsigned)rng.next()); std::printf("#stat seeded 1\n"); }
             emit_traj(rng, (int)rng.range(1, thorough ? 24 : 10)); std::printf("#stat traj 1\n"); break;
